@@ -24,6 +24,8 @@ from vlib.repo import HarnessError
 
 VERIF_DIR = os.path.dirname(os.path.dirname(os.path.abspath(__file__)))
 NPROC = int(os.environ.get('VERIF_NPROC', '16'))
+# the self-test redirects evidence/replays of mutant runs so that they never overwrite the real ones
+OUT_DIR = os.environ.get('VERIF_OUT') or VERIF_DIR
 
 
 # ----------------------------------------------------------------------------- serialisation
@@ -382,8 +384,8 @@ def write_evidence(mod, ctx, wall, n_violations):
         'coverage': cov, 'assumptions': list(mod.ASSUMPTIONS), 'wall_s': round(wall, 2),
         'violations': n_violations,
     }
-    os.makedirs(os.path.join(VERIF_DIR, 'evidence'), exist_ok=True)
-    path = os.path.join(VERIF_DIR, 'evidence', f'{ctx.prop}.json')
+    os.makedirs(os.path.join(OUT_DIR, 'evidence'), exist_ok=True)
+    path = os.path.join(OUT_DIR, 'evidence', f'{ctx.prop}.json')
     tmp = path + '.tmp'
     with open(tmp, 'w') as f:
         json.dump(ev, f, indent=1, sort_keys=True, default=repr)
@@ -393,11 +395,11 @@ def write_evidence(mod, ctx, wall, n_violations):
 
 
 def write_replay(prop, v):
-    os.makedirs(os.path.join(VERIF_DIR, 'replays'), exist_ok=True)
+    os.makedirs(os.path.join(OUT_DIR, 'replays'), exist_ok=True)
     body = {'property': prop, 'signature': v['signature'], 'message': v['message'], 'case': v['case'],
             'task': v.get('task')}
     name = f"{prop}-{hashlib.blake2b(json.dumps(body, sort_keys=True, default=repr).encode(), digest_size=6).hexdigest()}.json"
-    path = os.path.join(VERIF_DIR, 'replays', name)
+    path = os.path.join(OUT_DIR, 'replays', name)
     with open(path, 'w') as f:
         json.dump(body, f, indent=1, sort_keys=True, default=repr)
         f.write('\n')
